@@ -131,7 +131,7 @@ INST_KINDS = {
     "conv_all": {"conv": [("ScConv", "conv")]},
     "cmp_all": {"cmp": [("ScCmp", "cmp")]},
     "single_all": {"conv": [("ScConv", "conv")]},
-    "el_pair": {"elbin": [("ElBin", "add")], "elneg": [("ElUn", "neg")], "elshift": [("ElShift", "shl")], "ellimits": [("ElLimits", "limits")]},
+    "el_pair": {"elbin": [("ElBin", "add")], "elneg": [("ElUn", "neg")], "elshift": [("ElShift", "shl")], "ellimits": [("ElLimits", "limits")], "elcmp": [("ScCmp", "cmp")]},
     "text_scaled": {"": [("Tc", "to_chars")]}, "text_integer": {"": [("Tc", "to_chars")]}, "text_wide": {"": [("Tc", "to_chars")]},
 }
 
@@ -274,6 +274,9 @@ SCALED_CORE_PAIRS = [
     # exponent differences equal to / one off the digit count of the representation (conversions shift every digit out)
     "SI<i8,-7,2>, i32", "SI<i16,-15,2>, i32", "SI<i8,0,2>, SI<i8,7,2>", "SI<i16,-15,2>, SI<i16,0,2>",
     "SI<i8,-8,2>, i16", "SI<u8,-8,2>, u8", "SI<i8,-6,2>, i8", "SI<u16,-16,2>, SI<u16,1,2>",
+    # round 8: exponent differences at the widths of int / long (alignment shifts of 31, 32, 62, 63 bits; 10^18, 10^19)
+    "SI<i64,-31,2>, SI<i64,0,2>", "SI<i64,0,2>, SI<i64,-32,2>", "SI<u64,-63,2>, SI<u64,0,2>", "SI<i64,-62,2>, i64",
+    "SI<u32,-32,2>, SI<u64,0,2>", "SI<i64,31,2>, SI<i64,-1,2>", "SI<i64,-18,10>, SI<i64,0,10>", "SI<i64,0,10>, SI<i32,-18,10>",
 ]
 # dividend exponent far above / below the divisor's: quotient() with a positive / strongly negative result exponent
 # (quotient only: conversions between such types do not compile -- power_value static_asserts)
@@ -286,7 +289,10 @@ SCALED_CORE_SINGLES = ["SI<i32,-8,2>", "SI<i64,-70,2>", "SI<u16,3,2>", "SI<i8,-7
                        # round 8: exponents at the digit counts / widths of the built-in integers (a scale factor computed by an
                        # integer shift is wrong exactly there)
                        "SI<i64,-63,2>", "SI<i64,63,2>", "SI<u64,-64,2>", "SI<u64,64,2>", "SI<i32,-31,2>", "SI<i32,31,2>",
-                       "SI<u32,-32,2>", "SI<i16,-15,2>", "SI<i8,63,2>", "SI<i16,-63,2>", "SI<i32,-62,2>", "SI<u8,-8,2>"]
+                       "SI<u32,-32,2>", "SI<i16,-15,2>", "SI<i8,63,2>", "SI<i16,-63,2>", "SI<i32,-62,2>", "SI<u8,-8,2>",
+                       # round 8: floating point <-> scales whose radix is not 2 (judged exactly; deviations bound to AsCodedDecFloat)
+                       "SI<i32,-2,10>", "SI<i64,-6,10>", "SI<i16,1,10>", "SI<u8,-1,10>", "SI<i32,-9,10>", "SI<i64,5,10>",
+                       "SI<i32,-3,3>", "SI<i64,-18,10>"]
 
 
 SCALED_CORE_CMPS = [
@@ -713,7 +719,7 @@ def static_programs(tier):
 
 def static_jobs(tier):
     progs = static_programs(tier)
-    jobs = [dict(src="h_static.cpp", cc="gcc", tag="static-gcc-%d" % m, defines=["MENU=%d" % m], env={"VERIF_PROGRAMS": progs}) for m in range(5)]      # 4 = limb-aligned digit counts
+    jobs = [dict(src="h_static.cpp", cc="gcc", tag="static-gcc-%d" % m, defines=["MENU=%d" % m], env={"VERIF_PROGRAMS": progs}) for m in (0, 1, 2, 3, 4, 5)]      # 4 = limb-aligned digit counts, 5 = unsigned Narrowest
     m = vlib.seed() % 4
     jobs.append(dict(src="h_static.cpp", cc="clang", tag="static-clang-%d" % m, defines=["MENU=%d" % m], env={"VERIF_PROGRAMS": progs}))
     return jobs
@@ -856,7 +862,8 @@ CHECKS = {
                "convert<>; every rejected event must equal alg/AsCodedRConv.tla (bias added in floating point, floor via the "
                "cast round trip, binary shift for decimal scales) to count as one of the listed findings"),
     "C05": chk(["elastic"], ["elastic"],
-               "events = +,-,*,/,%,unary -, << / >> by a constant, numeric_limits on pairs of elastic_integer types from the "
+               "events = +,-,*,/,%,unary -, << / >> by a constant, the six comparisons (by value, also against built-in operands), "
+               "scale<-K>, numeric_limits on pairs of elastic_integer types from the "
                "TLC-enumerated lattice (GenElastic: digits 1..64 x signedness x narrowest 8/32/64 bit, fixed core + VERIF_SEED "
                "sample) x in-range operand values (extremes +-(2^D-1), TLC boundary sets, random); non-trivial = an operand "
                "uses all its digits or does not survive the cast to the operation's representation",
